@@ -40,6 +40,15 @@ SbfCheck(c, e) ==
 
 SupplyFails(e) == {c \in SbfChecks : ~SbfCheck(c, e)}
 
+\* op "sbf_points": isolated (large) arguments: in.xs interval lengths, in.ds demands
+SbfPointsFails(e) ==
+    IF "sbf" \notin DOMAIN e.out THEN {"returns"}
+    ELSE LET s == e.in.supply
+             IsInv(t, dm) == Sbf(s, t) >= dm /\ (t = 0 \/ Sbf(s, t - 1) < dm)
+         IN (IF \A i \in 1..Len(e.in.xs) : e.out.sbf[i] = Sbf(s, e.in.xs[i]) THEN {} ELSE {"closed_form"})
+            \cup (IF \A i \in 1..Len(e.in.ds) : IsInv(e.out.st[i], e.in.ds[i]) THEN {} ELSE {"inverse"})
+            \cup (IF \A i \in 1..Len(e.in.ds) : IsInv(e.out.std[i], e.in.ds[i]) THEN {} ELSE {"inverse_default"})
+
 \* op "sbf_equiv": two supplies that C09 declares equal
 SbfEquivFails(e) ==
     IF "a" \notin DOMAIN e.out THEN {"returns"}
